@@ -677,6 +677,42 @@ func TestVerifReuse(t *testing.T) {
 					reuseViol("secretsharing.Share", "aliased-argument-or-result", "threshold", deg, "secret", secb, "recovered", rb)
 				}
 			}
+			// Lagrange form: evaluated AT the interpolation nodes, at zero and
+			// elsewhere; results are overwritten, the node / value lists given to
+			// the constructor are overwritten afterwards
+			{
+				const nn = 4
+				xs, ys := make([]group.Scalar, nn), make([]group.Scalar, nn)
+				for j := range xs {
+					xs[j], ys[j] = g.NewScalar().SetUint64(uint64(j+2)), g.RandomScalar(r)
+				}
+				lp := polynomial.NewLagrangePolynomial(xs, ys)
+				at := []group.Scalar{g.NewScalar(), g.RandomScalar(r)}
+				for j := range xs {
+					at = append(at, g.NewScalar().SetUint64(uint64(j+2)))
+				}
+				var before [][]byte
+				for _, a := range at {
+					b, _ := lp.Evaluate(a).MarshalBinary()
+					before = append(before, b)
+				}
+				for j, a := range at {
+					lp.Evaluate(a).SetUint64(uint64(1000 + j)) // the result is the caller's
+				}
+				for j := range xs {
+					xs[j].SetUint64(uint64(50 + j))
+					ys[j].SetUint64(uint64(60 + j))
+				}
+				lib.Count("reuse:lagrange-results-and-arguments-overwritten")
+				for j, a := range at {
+					now, _ := lp.Evaluate(a).MarshalBinary()
+					if !lib.Eq(now, before[j]) {
+						ab, _ := a.MarshalBinary()
+						reuseViol("polynomial.LagrangePolynomial.Evaluate", "aliased-argument-or-result", "at", ab, "before", before[j], "after", now)
+						break
+					}
+				}
+			}
 			// ShareWithID: the identifier is an operand; one counter scalar is
 			// re-used for several calls (and overwritten afterwards), and the ID
 			// of a share is overwritten: neither reaches the other one, and the
